@@ -122,12 +122,18 @@ func (m *MemCache) retrieve(id uint16, addr net.IP) (TemplateRecord, bool) {
 
 // Dump saves the current templates to hard disk
 func (m MemCache) Dump(cacheFile string) error {
+	for _, shard := range m {
+		shard.RLock()
+	}
 	b, err := json.Marshal(
 		memCacheDisk{
 			m,
 			shardNo,
 		},
 	)
+	for _, shard := range m {
+		shard.RUnlock()
+	}
 	if err != nil {
 		return err
 	}
